@@ -60,6 +60,10 @@ CHECKS = {
             "Instances of all classes get adversarial values through the model's own attribute interface (decimals of any exponent, NaN/Infinity, markup and entity-like strings, date-times in any zone with arbitrary names, bool for integers); each is written in the wire forms and TLC reads the bytes: every data element must be lexically valid for its declared type and clean on the wire ('<' never raw, '&' only starting an entity); a refusal to write is an accepted outcome.",
             "Trusted: TLC, the lexical predicates transcribed from OFX 3.2.8. Control characters and edge white space in strings are outside the quantifier. One known finding (unclosed form with an empty aggregate).",
             "DESIGN.md section 6 C11"),
+    "C16": ("TLA+ OFXAccess (depth-first lookup and shortcut paths over abstract instances): every receiver x every name declared below / nowhere x shortcuts x copy/pickle, results recorded by object identity (paths) and judged by TLC",
+            "On TLC-simulated instances of all classes and statement-bearing OFX trees, every aggregate is taken as receiver: getattr/hasattr/getattr-with-default for every name declared below it, names declared nowhere below and dunder names; all 15 documented shortcuts; copy, deepcopy and pickle. Aggregates returned are reported by the path of the very object (identity); TLC recomputes Lookup / the shortcut path on the abstract instance and compares.",
+            "Trusted: TLC, the exporter, the reading of the documented shortcuts as paths. Unjudged: names defined by several descendants, names of repeated/unsupported children, names shadowed by list methods or properties, ORG/FID when FI is absent, trnuid/cltcookie stapled onto statement responses.",
+            "DESIGN.md section 6 C16"),
 }
 
 PENDING = {}
